@@ -6,6 +6,6 @@
 set -e
 S=$1; shift
 mkdir -p "$S"
-rsync -a --delete --exclude .build/miri --exclude .build/asan --exclude .build/tsan --exclude .build/release --exclude .build/memcrsd --exclude .git /verif/ "$S/verif/"
+rsync -a --delete --exclude "incremental" --exclude .build/miri --exclude .build/asan --exclude .build/tsan --exclude .build/release --exclude .build/memcrsd --exclude .git /verif/ "$S/verif/" || [ $? -eq 24 ]
 rm -rf "$S/repo"; git clone -q /repo "$S/repo"
 exec unshare -m bash -c "mount --bind $S/repo /repo && mount --bind $S/verif /verif && cd /verif && $*"
